@@ -71,7 +71,19 @@ def realistic_fault(kind, paths):
     FileNotFoundError."""
     try:
         if kind == 'os.mkdir':
-            return not os.path.lexists(paths[0])
+            if not os.path.lexists(paths[0]):
+                return True
+            # mkdir of an existing entry: os.makedirs(exist_ok=True) treats ANY OSError as
+            # "already there" (stdlib behaviour), so a fault there can never surface; a direct
+            # os.mkdir of the library can still fail differently (e.g. EACCES on the parent)
+            f = sys._getframe(1)
+            depth = 0
+            while f is not None and depth < 12:
+                if f.f_code.co_name == 'makedirs' and ('frozen os' in f.f_code.co_filename or f.f_code.co_filename.endswith('os.py')):
+                    return False
+                f = f.f_back
+                depth += 1
+            return 'existing'
         if kind in ('os.rename', 'os.remove', 'os.rmdir'):
             return os.path.lexists(paths[0])
     except OSError:
